@@ -1,6 +1,7 @@
 package main
 
 import (
+	"sort"
 	"fmt"
 	"go/ast"
 	"go/constant"
@@ -227,6 +228,11 @@ func (e *specEnv) eval(x SExpr) specVal {
 	case SOld:
 		n := *e
 		n.st = e.old
+		if t.HeapOnly {
+			c := e.old.clone()
+			c.ghost = e.st.ghost
+			n.st = c
+		}
 		return n.eval(t.X)
 	case SIte:
 		c := e.evalBool(t.C)
@@ -315,40 +321,61 @@ func (e *specEnv) ident(name string) specVal {
 	}
 	fn := e.fr.fn
 	if e.loop != nil {
-		// innermost scope first: variables declared in the loop body
-		for _, b := range fn.Blocks {
-			if !e.loop.body[b.Index] {
-				continue
+		// innermost scope first: variables declared in the loop body, then in the enclosing loops
+		scopes := []*loopInfo{e.loop}
+		{
+			var outer []*loopInfo
+			for _, li := range e.fr.loops {
+				if li != e.loop && li.body[e.loop.header.Index] {
+					outer = append(outer, li)
+				}
 			}
-			for _, ins := range b.Instrs {
-				if al, ok := ins.(*ssa.Alloc); ok && al.Comment == name {
-					if cell, ok := e.fr.vals[al]; ok {
-						et := elemTypeOfAddr(al)
-						if kindOf(et) == kStruct {
-							return specVal{V: cell, T: al.Type()}
+			sort.Slice(outer, func(a, b int) bool { return len(outer[a].body) < len(outer[b].body) })
+			scopes = append(scopes, outer...)
+		}
+		var found ssa.Value
+		for _, scope := range scopes {
+			for _, b := range fn.Blocks {
+				if !scope.body[b.Index] {
+					continue
+				}
+				for _, ins := range b.Instrs {
+					if al, ok := ins.(*ssa.Alloc); ok && al.Comment == name {
+						if cell, ok := e.fr.vals[al]; ok {
+							et := elemTypeOfAddr(al)
+							if kindOf(et) == kStruct {
+								return specVal{V: cell, T: al.Type()}
+							}
+							return specVal{V: v.deref(e.st, cell, et, e.g()), T: et}
 						}
-						return specVal{V: v.deref(e.st, cell, et, e.g()), T: et}
 					}
 				}
 			}
-		}
-		var found ssa.Value
-		for _, b := range fn.Blocks {
-			if !e.loop.body[b.Index] {
-				continue
-			}
-			for _, ins := range b.Instrs {
-				if dr, ok := ins.(*ssa.DebugRef); ok && !dr.IsAddr {
-					if id, ok := dr.Expr.(*ast.Ident); ok && id.Name == name {
-						if ob := dr.Object(); ob != nil && ob.Pkg() != nil && ob.Parent() == ob.Pkg().Scope() {
-							continue
-						}
-						if _, have := e.fr.vals[dr.X]; have {
-							if found == nil {
-								found = dr.X
+			for _, b := range fn.Blocks {
+				if !scope.body[b.Index] {
+					continue
+				}
+				for _, ins := range b.Instrs {
+					if dr, ok := ins.(*ssa.DebugRef); ok && !dr.IsAddr {
+						if id, ok := dr.Expr.(*ast.Ident); ok && id.Name == name {
+							if ob := dr.Object(); ob != nil && ob.Pkg() != nil && ob.Parent() == ob.Pkg().Scope() {
+								continue
+							}
+							if _, have := e.fr.vals[dr.X]; have {
+								if found == nil {
+									found = dr.X
+								}
 							}
 						}
 					}
+				}
+			}
+			if found != nil {
+				break
+			}
+			if scope == e.loop {
+				if _, ok := e.over[name]; ok {
+					break // a loop-carried variable of the innermost loop: resolved below
 				}
 			}
 		}
@@ -460,6 +487,15 @@ func (e *specEnv) ident(name string) specVal {
 	}
 	if p := v.w.findPackage(name); p != nil {
 		return specVal{Pkg: p}
+	}
+	// contracts bind parameters by position: a name that was a parameter when the lock was written denotes the
+	// parameter that is at that position now (a renamed parameter keeps its contract)
+	if lp := lockedParams()[FuncKey(fn)]; lp != nil {
+		for i, n := range lp {
+			if n == name && i < len(fn.Params) && e.fr.vals[fn.Params[i]] != nil {
+				return specVal{V: e.fr.vals[fn.Params[i]], T: fn.Params[i].Type()}
+			}
+		}
 	}
 	panic(specErr("unknown identifier %q in contract of %s", name, FuncKey(fn)))
 }
@@ -1037,6 +1073,32 @@ func (e *specEnv) call(c SCall) specVal {
 			base := v.emitCount(e.old, lit.Val)
 			arr := v.emitArr(e.st, lit.Val, j, so)
 			return specVal{V: Sc{Select(arr, Add(base, n), so)}, T: ty}
+		case "lastArg":
+			callee := e.resolveFuncRef(c.Args[0])
+			il, ok := c.Args[1].(SLit)
+			if callee == nil || !ok || il.Kind != "int" {
+				panic(specErr("lastArg(f, i): cannot resolve function %v or operand index", c.Args[0]))
+			}
+			var ai int
+			fmt.Sscanf(il.Val, "%d", &ai)
+			if !v.w.Contracts.argObserved(FuncKey(callee)) {
+				panic(specErr("lastArg(): %s is not declared with 'observe-args'", FuncKey(callee)))
+			}
+			if ai >= len(callee.Params) {
+				panic(specErr("lastArg(): %s has no operand %d", FuncKey(callee), ai))
+			}
+			at := callee.Params[ai].Type()
+			sorts := flatSorts(at)
+			ts := make([]Term, len(sorts))
+			for i, so := range sorts {
+				t, ok := e.st.ghost[fmt.Sprintf("arg#%s#%d#%d", FuncKey(callee), ai, i)]
+				if !ok || t.Sort != so {
+					t = v.sc.Fresh("noarg", so)
+				}
+				ts[i] = t
+			}
+			val, _ := unflatten(at, ts)
+			return specVal{V: val, T: at}
 		case "lastResult":
 			callee := e.resolveFuncRef(c.Args[0])
 			if callee == nil {
@@ -1347,4 +1409,16 @@ func (e *specEnv) fieldAddress(sel SSel) (Val, bool) {
 		}
 	}
 	return nil, false
+}
+
+var lockedParamsCache map[string][]string
+
+func lockedParams() map[string][]string {
+	if lockedParamsCache == nil {
+		lockedParamsCache = loadLock().Params
+		if lockedParamsCache == nil {
+			lockedParamsCache = map[string][]string{}
+		}
+	}
+	return lockedParamsCache
 }
